@@ -108,7 +108,8 @@ func (c11) Gen(tier string, seed int64, emit0 func([]Ev)) {
 						dl = 1
 					}
 					b := c11Pes(r, sid, pd, ex, dl, c11Time(r), c11Time(r))
-					emit([]Ev{{"op": "pes", "bytes": B(b), "lenient": false}})
+					// the getters of the fresh object are queried in an order chosen here (0: declaration order)
+					emit([]Ev{{"op": "pes", "bytes": B(b), "lenient": false, "order": r.Intn(3) * (1 + r.Intn(1<<20))}})
 				}
 			}
 		}
@@ -234,12 +235,23 @@ func (c11) Exec(h []Ev) []Ev {
 				hd, err := pes.NewPESHeader(b)
 				e["err"] = err != nil
 				if hd != nil {
-					e["prefix"] = int(hd.PacketStartCodePrefix())
-					e["sid"] = int(hd.StreamId())
-					e["dai"] = hd.DataAligned()
-					e["haspts"], e["hasdts"] = hd.HasPTS(), hd.HasDTS()
-					e["pts"], e["dts"] = W64(hd.PTS()), W64(hd.DTS())
-					e["data"] = B(hd.Data())
+					gets := []func(){
+						func() { e["prefix"] = int(hd.PacketStartCodePrefix()) },
+						func() { e["sid"] = int(hd.StreamId()) },
+						func() { e["dai"] = hd.DataAligned() },
+						func() { e["haspts"] = hd.HasPTS() },
+						func() { e["hasdts"] = hd.HasDTS() },
+						func() { e["pts"] = W64(hd.PTS()) },
+						func() { e["dts"] = W64(hd.DTS()) },
+						func() { e["data"] = B(hd.Data()) },
+					}
+					idx := []int{0, 1, 2, 3, 4, 5, 6, 7}
+					if o, ok := e["order"]; ok && GI(o) != 0 {
+						idx = rand.New(rand.NewSource(int64(GI(o)))).Perm(len(gets))
+					}
+					for _, i := range idx {
+						gets[i]()
+					}
 					defer held.hold(func() string {
 						return jsonOf([]interface{}{hd.PacketStartCodePrefix(), hd.StreamId(), hd.DataAligned(), hd.HasPTS(), hd.HasDTS(), hd.PTS(), hd.DTS(), hd.Data()})
 					})
